@@ -154,9 +154,46 @@ func populateDefaultQueryParameters(q url.Values, parameterName string, value an
 			}
 			q.Add(parameterName, joinValues(t, sep))
 		}
+	case map[string]any:
+		names := make([]string, 0, len(t))
+		for name := range t {
+			names = append(names, name)
+		}
+		sort.Strings(names)
+		switch {
+		case sm.Style == openapi3.SerializationDeepObject:
+			for _, name := range names {
+				q.Add(parameterName+"["+name+"]", formatDefaultValue(t[name]))
+			}
+		case sm.Explode:
+			for _, name := range names {
+				q.Add(name, formatDefaultValue(t[name]))
+			}
+		default:
+			q.Add(parameterName, formatDefaultObject(t, false))
+		}
 	default:
 		q.Add(parameterName, formatDefaultValue(value))
 	}
+}
+
+// formatDefaultObject renders an object default in style simple / form: name,value pairs
+// (name=value pairs when exploded), comma-separated, in the order of the names.
+func formatDefaultObject(object map[string]any, explode bool) string {
+	names := make([]string, 0, len(object))
+	for name := range object {
+		names = append(names, name)
+	}
+	sort.Strings(names)
+	pairDelim := ","
+	if explode {
+		pairDelim = "="
+	}
+	pairs := make([]string, 0, len(names))
+	for _, name := range names {
+		pairs = append(pairs, name+pairDelim+formatDefaultValue(object[name]))
+	}
+	return strings.Join(pairs, ",")
 }
 
 // ValidateParameter validates a parameter's value by JSON schema.
@@ -195,7 +232,7 @@ func ValidateParameter(ctx context.Context, input *RequestValidationInput, param
 	}
 
 	// Set default value if needed
-	if !options.SkipSettingDefaults && value == nil && schema != nil {
+	if !options.SkipSettingDefaults && isNilValue(value) && schema != nil {
 		value = schema.Default
 		for _, subSchema := range schema.AllOf {
 			if subSchema.Value.Default != nil {
@@ -222,7 +259,12 @@ func ValidateParameter(ctx context.Context, input *RequestValidationInput, param
 				populateDefaultQueryParameters(q, parameter.Name, value, sm)
 				req.URL.RawQuery = q.Encode()
 			case openapi3.ParameterInHeader:
-				req.Header.Set(parameter.Name, formatDefaultValue(value))
+				text := formatDefaultValue(value)
+				if object, ok := value.(map[string]any); ok {
+					sm, err := parameter.SerializationMethod()
+					text = formatDefaultObject(object, err == nil && sm.Explode)
+				}
+				req.Header.Set(parameter.Name, text)
 			case openapi3.ParameterInCookie:
 				if found {
 					// drop the cookie that was sent without a value
